@@ -176,7 +176,7 @@ def matrix_units():
             [f"eval::apply_binary_operation ({op}; " + "; ".join(descr) + ")"],
             kind=kind,
             bound=(SHAPES if kind == "bounded" else None),
-            inputs=gen_matrix.inputs_for(lk, rks),
+            inputs=gen_matrix.inputs_for(lk, rks, op),
             replay=matrix_replay(op, sym, lk, rks),
             note=("operand kinds concrete, scalar payloads full-domain symbolic; non-scalar operands are "
                   "represented by " + SHAPES),
